@@ -167,7 +167,9 @@ def device_of(i):
 
 
 def check_first(sess):
-    for mod, fn, is_method in ((LEG, 'findPort', False), (EB3, 'EBB3.find_first', True)):
+    # the EBB3 method is verified from BOTH kinds of prior object state (histories): port_name None (fresh object) and port_name an
+    # arbitrary string left by an earlier call -- the result must not depend on it (seed C19-17: a failed search kept the old name)
+    for mod, fn, is_method, stale in ((LEG, 'findPort', False, False), (EB3, 'EBB3.find_first', True, False), (EB3, 'EBB3.find_first', True, True)):
         p = Path()
         seq = new_ports(p)
         j = z3.Int('jstar')
@@ -179,10 +181,11 @@ def check_first(sess):
         ex = Exec(ctx)
         args = []
         if is_method:
-            obj = sm.new_ebb3(p, cls=sm.EBB3, port=False)
+            extra = {'port_name': sm.fresh_err('stale_port_name')} if stale else None
+            obj = sm.new_ebb3(p, cls=sm.EBB3, port=False, extra=extra)
             args = [obj]
         outs = list(ex.run_function(p, mod, fn, args))
-        tag = fn
+        tag = fn + ('[after-an-earlier-call]' if stale else '')
         inrange = z3.And(j >= 0, j < seq.n)
         for q, out in outs:
             if not no_raise(ex, q, out, tag):
